@@ -3,7 +3,7 @@ CONSTANTS
   CompressionLeftOfNegInf = TRUE
   Amps = {1, 3}
   Means <- MeansMC
-  Diagrams = {"g0", "g3", "f0", "f1"}
+  Diagrams = {"g0", "g3", "f0", "f1", "f2"}
   Goals = {"ninf", "m3", "m1", "mh", "z", "q", "h", "t", "two", "five"}
 INVARIANT WalkIsIsoDamageLine
 INVARIANT FixedPointAtGoal
